@@ -209,7 +209,8 @@ func (c *ConnScript) defaults() {
 				maxGap = g
 			}
 		}
-		if Dur(len(st.Data)/minSeg+1)*maxGap > 3*time.Minute {
+		nseg := len(st.Data)/minSeg + 1
+		if nseg > 20 && Dur(nseg)*maxGap > 3*time.Minute {
 			st.Gaps = nil
 		}
 	}
